@@ -154,6 +154,9 @@ def clear_used(node):
 def _py_path(base, path, itvars):
     s = base
     for p in path:
+        if isinstance(p, list) and p[0] == "itv":
+            s = "it_%s" % p[1]        # the iteration variable of an enclosing foreach replaces the base
+            continue
         if isinstance(p, str):
             s += "." + p
         elif isinstance(p, int):
